@@ -698,7 +698,9 @@ func ruleTagUniq(c *Ctx, r *Report) {
 		// name clash guard compares the names that are emitted.
 		var uniqArg, memberArg ast.Expr
 		for _, call := range CallsIn(gi, g.Decl.Body, P("genutil")+".MakeNameUnique") {
-			if as, ok := c.parentMap(g.File)[call].(*ast.AssignStmt); ok && uniqArg == nil {
+			// the per-key field name (made unique inside the loop over the keys), not the name of
+			// the key message itself.
+			if as, ok := c.parentMap(g.File)[call].(*ast.AssignStmt); ok && uniqArg == nil && c.EnclosingLoop(g, call) != nil {
 				_ = as
 				uniqArg = call.Args[0]
 			}
@@ -763,7 +765,7 @@ var (
 
 // ruleProtoCorpus: R-PROTO — the generated .proto goldens the test-suite pins the generator to.
 func ruleProtoCorpus(c *Ctx, r *Report) {
-	r.Rule("R-PROTO", "in every golden .proto under protogen/testdata/proto (the byte-exact images of generator output the suite compares against): per message, field names and numbers (oneof members included) are distinct, numbers lie in [1,2^29-1]\\[19000,19999]; per enum, value names and numbers are distinct and the first value is 0; braces balance and the file declares proto3", 40)
+	r.Rule("R-PROTO", "in every golden .proto under protogen/testdata/proto (the byte-exact images of generator output the suite compares against): per message, field names and numbers (oneof members included) are distinct, numbers lie in [1,2^29-1]\\[19000,19999]; per enum, value names and numbers are distinct and the first value is 0; type names are distinct within their message or file and enum value names within the scope their enums share; braces balance and the file declares proto3", 40)
 	dir := filepath.Join(repoDir(), "protogen", "testdata", "proto")
 	files, _ := filepath.Glob(filepath.Join(dir, "*.formatted-txt"))
 	sort.Strings(files)
@@ -787,6 +789,9 @@ func ruleProtoCorpus(c *Ctx, r *Report) {
 		rel := relpos(fn)
 		var stack []*scope
 		var problems []string
+		typeNames := map[string]map[string]bool{}
+		valueNames := map[string]map[string]string{}
+		enclOf := map[int]string{}
 		src := string(b)
 		isWhole := strings.Contains(src, "syntax = ")
 		if isWhole && !strings.Contains(src, `syntax = "proto3";`) {
@@ -798,6 +803,24 @@ func ruleProtoCorpus(c *Ctx, r *Report) {
 				continue
 			}
 			if m := protoOpenRe.FindStringSubmatch(l); m != nil {
+				// type names share the namespace of the enclosing message (or of the file).
+				if m[1] == "message" || m[1] == "enum" {
+					encl := "file"
+					for i := len(stack) - 1; i >= 0; i-- {
+						if stack[i].kind == "message" {
+							encl = fmt.Sprintf("message %s@%p", stack[i].name, stack[i])
+							break
+						}
+					}
+					if typeNames[encl] == nil {
+						typeNames[encl] = map[string]bool{}
+					}
+					if typeNames[encl][m[2]] {
+						problems = append(problems, fmt.Sprintf("%s: type name %s declared twice", strings.SplitN(encl, "@", 2)[0], m[2]))
+					}
+					typeNames[encl][m[2]] = true
+					enclOf[len(stack)] = encl
+				}
 				stack = append(stack, &scope{kind: m[1], name: m[2], names: map[string]bool{}, nums: map[int64]bool{}, first: true})
 				if m[1] == "message" {
 					nmsg++
@@ -828,6 +851,17 @@ func ruleProtoCorpus(c *Ctx, r *Report) {
 				top.first = false
 				if top.names[m[1]] {
 					problems = append(problems, fmt.Sprintf("enum %s: duplicate value name %s", top.name, m[1]))
+				} else {
+					// enum value names are scoped like the enum itself (C++ rules): siblings of
+					// every value of every enum declared in the same message or file.
+					encl := enclOf[len(stack)-1]
+					if valueNames[encl] == nil {
+						valueNames[encl] = map[string]string{}
+					}
+					if other, ok := valueNames[encl][m[1]]; ok && other != top.name {
+						problems = append(problems, fmt.Sprintf("%s: enum value name %s is declared by enums %s and %s, which share one scope", strings.SplitN(encl, "@", 2)[0], m[1], other, top.name))
+					}
+					valueNames[encl][m[1]] = top.name
 				}
 				if top.nums[n] {
 					problems = append(problems, fmt.Sprintf("enum %s: duplicate value number %d", top.name, n))
